@@ -72,10 +72,24 @@ def c17(pid, tier, seed, selftest=False):
             styles = list(range(0, 30, 3))
         for stl in styles:
             scenarios.append({"op": "kr", "id": "k%d.%d" % (i, stl), "toks": r["toks"], "class": r["class"], "style": stl})
+    # what the model refuses or finds incomplete, CONTINUED: the model stops at the first refused line, a parser need not; a
+    # text that goes on after the offending lines (e.g. a [Key] line typed twice, then a complete section) is still judged by
+    # the declarative contract (its class is computed by TLC during trace validation, "auto" here)
+    comps = [[{"t": "key"}, {"t": "name", "v": "b"}, {"t": "pub", "v": "P2"}], [{"t": "name", "v": "b"}, {"t": "pub", "v": "P2"}],
+             [{"t": "pub", "v": "P2"}, {"t": "name", "v": "b"}], [{"t": "key"}, {"t": "name", "v": "a"}, {"t": "pub", "v": "P1"}, {"t": "priv", "v": "K1"}]]
+    next_ = 0
+    for i, r in enumerate(res.replays):
+        if r["model"] or len(r["toks"]) > (5 if thorough else 4):
+            continue
+        for ci, comp in enumerate(comps):
+            next_ += 1
+            scenarios.append({"op": "kr", "id": "x%d.%d" % (i, ci), "toks": r["toks"] + comp, "class": "auto", "style": next_ % 30})
+    rep.extra["continued_after_a_refused_or_incomplete_prefix"] = next_
     for s in scenarios:
         rep.case(json.dumps([s["toks"], s["style"]]), len(s["toks"]) >= 2)
     rep.sample(scenarios[len(scenarios) // 2])
     rep.sample(next(s for s in scenarios if s["class"] == "must_accept"))
+    rep.sample(next(s for s in scenarios if s["class"] == "auto"))
     evs = run_oneshot(rep, pid, "kr", "kr", scenarios, tpl, seed, "Trace_Keyring", nproc=16, only_prefixes=["C17_"])
     rep.extra["accepted"] = sum(1 for e in evs if e["accepted"])
     rep.extra["by_class"] = {c: sum(1 for s in scenarios if s["class"] == c) for c in ("must_accept", "must_reject", "may")}
@@ -172,4 +186,7 @@ def c15(pid, tier, seed, selftest=False):
     # are not UTF-8 in KESTREL_PASSWORD), never unlocks or locks anything
     import checks_cli
     checks_cli.tool_clause(rep, pid, tpl, seed, ["encrypt", "decrypt", "key_generate"], ["wrong_password", "non_utf8_password"], "C15_")
+    # ... and typed at a terminal: the key unlocks under the password it is locked under at whichever attempt it is typed
+    checks_cli.tty_extension(rep, pid, tpl, seed, thorough, ["C15_"], channels=("tty", "stdin"),
+                             select=lambda s_: s_["cmd"] in ("decrypt", "encrypt") and s_["exp"]["res"] == "ok")
     return rep.finish()
